@@ -463,5 +463,5 @@ var specPool = pbt.Register(&pbt.Spec[PoolCase]{
 	Run: RunPool, Quick: 300, Thorough: 4000, Crashy: true, Retries: 100,
 })
 
-func TestC18Pool(t *testing.T)  { pbt.Check(t, specPool) }
-func TestReplay(t *testing.T)   { pbt.Replay(t) }
+func TestC18Pool(t *testing.T) { pbt.Check(t, specPool) }
+func TestReplay(t *testing.T)  { pbt.Replay(t) }
